@@ -3,7 +3,7 @@ import itertools
 import numpy as np
 from symnp.runner import Case
 
-OUTSIDE = ('Lorenz mask (sorting + cumulative share: not encoded in this round); phase-sensitive mask (co-simulated only); tensors with more than 3 axes or sizes > 3; Lorenz mask on more than 8 points; rounding; the eps guards are treated '
+OUTSIDE = ('Lorenz mask beyond 4 points; phase-sensitive mask (co-simulated only); tensors with more than 3 axes or sizes > 3; Lorenz mask on more than 8 points; rounding; the eps guards are treated '
            'exactly (sum of masks * (power + eps) == power)')
 
 
@@ -180,6 +180,47 @@ def h_quantile(env, n=6, q=0.25, lead=(), axis=-1, weight=0.999):
                         env.true('quantile_level%s[%d|%d,%d]' % (list(li), i, a, b), (~(is_a & is_b)) | ((lev >= 0.75) == above))
 
 
+def h_lorenz(env, n=4, frac=0.6, weight=0.999, lead=(1,)):
+    """Lorenz mask: high level exactly at the points strictly stronger than the weakest of the strongest points whose
+    cumulative share of the power stays below the Lorenz fraction (order-free characterisation, ties included)"""
+    from pb_bss.extraction import mask_module as mmod
+    x = env.real('x', tuple(lead) + (1, n), lo=0, hi=3)
+    env.readonly(x)
+    hi, lo = 0.5 + weight / 2, 0.5 - weight / 2
+    rows = []
+    for li in np.ndindex(*lead):
+        p = [env.el(x, li + (0, i)) * env.el(x, li + (0, i)) for i in range(n)]
+        tot = sum_(p)
+        for i in range(n):
+            env.assume(p[i] < frac * tot, 'no single point carries the Lorenz fraction of the total power')
+        rows.append((li, p, tot))
+    m = mmod.lorenz_mask(x, lorenz_fraction=frac, weight=weight)
+    env.shape_is('mask', m, tuple(lead) + (1, n))
+    for li, p, tot in rows:
+        if env.sym:
+            from symnp.core import ite, SR
+            # threshold t = min{ v in values : (sum of powers strictly greater than v) + v < frac * total }
+            t = p[0]
+            for v in p[1:]:
+                t = ite(v >= t, v, t)
+            for j in range(n):
+                Sj = p[j]
+                for k in range(n):
+                    Sj = Sj + ite(p[k] > p[j], p[k], SR(0))
+                cond = (Sj < frac * tot) & (p[j] < t)
+                t = ite(cond, p[j], t)
+            for i in range(n):
+                lev = env.el(m, li + (0, i))
+                env.true('lorenz_level%s[%d]' % (list(li), i), (lev >= 0.75) == (p[i] > t))
+        else:
+            pv = np.array([float(v) for v in p])
+            cands = [v for v in pv if pv[pv > v].sum() + v < frac * pv.sum()]
+            t = min(cands)
+            for i in range(n):
+                lev = float(np.asarray(m)[li + (0, i)])
+                env.eq('lorenz_level%s[%d]' % (list(li), i), lev, hi if pv[i] > t else lo)
+
+
 def sum_(xs):
     t = 0
     for x in xs:
@@ -202,4 +243,5 @@ def cases(tier):
     for q in [0.25, -0.25]:
         cs.append(Case('quantile/n4_q%g' % q, h_quantile, dict(n=4, q=q, lead=(1,)), bounds='n=4 points, 1 independent row, q=%g' % q, lazy=True, timeout_ms=60000, cosim=2, max_paths=5000))
     cs.append(Case('quantile/no_independent_axis', h_quantile, dict(n=4, q=0.25, lead=()), bounds='1-D input (no independent axis)', lazy=True, timeout_ms=60000, cosim=2, max_paths=5000))
+    cs.append(Case('lorenz/n4', h_lorenz, dict(n=4, frac=0.6), bounds='n=4 points in one (F=1, T=4) block, lorenz_fraction 0.6, ties included', lazy=True, timeout_ms=60000, cosim=3, max_paths=20000, budget_s=600))
     return cs
